@@ -124,6 +124,12 @@ func (c *SubscriptionManager) RemoveSubscription(data model.SubscriptionManageme
 		verifPoint("RemoveSubscription.scan")
 		itemAddress := item.ClientFeature.Address()
 
+		// a subscription can only be deleted by the device that holds it
+		if dev := item.ClientFeature.Device(); dev != nil && dev.Ski() != remoteDevice.Ski() {
+			newSubscriptionEntries = append(newSubscriptionEntries, item)
+			continue
+		}
+
 		if !reflect.DeepEqual(itemAddress.Device, clientAddress.Device) ||
 			!reflect.DeepEqual(itemAddress.Entity, clientAddress.Entity) ||
 			!reflect.DeepEqual(itemAddress.Feature, clientAddress.Feature) ||
